@@ -67,8 +67,6 @@ theorem basic_leaf {ty : Ty} {v : Val} (hb : isBasicTy ty = true) (hr : reprOk f
 
 /-! ### the columns and the tree entries of a sub-record -/
 
-abbrev SPair := Field × Val
-def nonDefault (p : SPair) : Bool := !isDefault p.1.2.2 p.2
 def subCol (n : Str) (p : SPair) : Str × Str := (n ++ '.' :: p.1.1, printBasic p.2)
 def subTr (p : SPair) : Str × Tree := (p.1.1, leafTree p.2)
 
